@@ -113,7 +113,7 @@ class UpdateSM(Contract):
     name = 'vfps::KickMap::updateSM'
     tu = 'src/SM/KickMap.cpp'
     params = []
-    tags = {'C01', 'C02', 'C08', 'C15'}
+    tags = {'C01', 'C02', 'C03', 'C05', 'C08', 'C15'}
     ghosts = {'g': 'int', 'e': 'int'}
 
     def requires(self, cx):
@@ -131,7 +131,7 @@ class UpdateSM(Contract):
     def ensures(self, cx):
         g, e = cx.g('g'), cx.g('e')
         offs = cx.arr('this._offset')
-        return [('row', {'C01', 'C02', 'C08', 'C15'}, Implies(self.ghost_range(cx), row_spec(cx, g, e, offs))),
+        return [('row', {'C01', 'C02', 'C03', 'C05', 'C08', 'C15'}, Implies(self.ghost_range(cx), row_spec(cx, g, e, offs))),
                 ('offset_unchanged', {'C08'}, offs == cx.old.arr('this._offset'))]
 
     def _inv_outer(self, cx):
